@@ -128,13 +128,14 @@ func TestWriteWitnesses(t *testing.T) {
 	write("mat-vecdense-makeslice", "matvec-total", vk.BytesCase{Data: append(goodHeader(1<<61+1, 1).bytes(), make([]byte, 8)...)})
 	write("mat-dense-negative-rows-error", "matdense-total", vk.BytesCase{Data: goodHeader(-1, 1).bytes()})
 	write("mat-vecdense-negative-rows-error", "matvec-total", vk.BytesCase{Data: goodHeader(-1, 1).bytes()})
-	write("hll64-union-different-hash", "hll-compat", hllCompatCase{Bits: 64, PA: 4, PB: 4, HA: 0, HB: 1, Recv: 3, HR: 0, PR: 4, NA: 3, NB: 3, SeedA: 1, SeedB: 2})
-	write("hll32-union-different-hash", "hll-compat", hllCompatCase{Bits: 32, PA: 4, PB: 4, HA: 0, HB: 1, Recv: 1, NA: 3, NB: 3, SeedA: 1, SeedB: 2})
+	write("hll64-union-different-hash", "hll-compat", hllCompatCase{Bits: 64, PA: 4, PB: 4, HA: 0, HB: 1, Recv: 0, NA: 3, NB: 3, SeedA: 1, SeedB: 2})
+	write("hll32-union-different-hash", "hll-compat", hllCompatCase{Bits: 32, PA: 4, PB: 4, HA: 0, HB: 1, Recv: 2, NA: 3, NB: 3, SeedA: 1, SeedB: 2})
 	write("hll64-sethash-on-unset-receiver", "hll-compat", hllCompatCase{Bits: 64, PA: 4, PB: 4, Recv: 0, NA: 3, NB: 3, SeedA: 1, SeedB: 2})
 	write("hll64-sethash-on-set-receiver", "hll-compat", hllCompatCase{Bits: 64, PA: 4, PB: 4, Recv: 1, NA: 3, NB: 3, SeedA: 1, SeedB: 2})
 	write("hll64-unmarshal-16-registers-precision-8", "hll-total", vk.BytesCase{Data: append([]byte{hllSelector(64, 0)}, hllStream(64, hllHashNames[2], 8, make([]uint8, 16))...)})
 	write("hll32-unmarshal-16-registers-precision-8", "hll-total", vk.BytesCase{Data: append([]byte{hllSelector(32, -1)}, hllStream(32, hllHashNames[0], 8, make([]uint8, 16))...)})
 	write("nquads-parts-uchar-out-of-range", "nq-total", nqBytesCase{Data: []byte(`<a:s> <a:p> "\U80000000" .`)})
+	write("nquads-blank-label-split-spurious-label", "nq-total", vk.BytesCase{Data: []byte("<a:s> <a:p> _:h_:_ .")})
 	blank := nqStmt{S: nqTerm{Kind: 1, Body: "a:s"}, P: nqTerm{Kind: 1, Body: "a:p"}, O: nqTerm{Kind: 3, Body: "a_:b"}, Sep: []string{"", " ", " ", " ", " ", ""}}
 	write("nquads-blank-label-split", "nq-rt", blank)
 	write("nquads-blank-label-split-stream", "nq-stream", nqStreamCase{Stmts: []nqStmt{blank}, Noise: []int{0}, Lead: []string{""}, Final: true})
